@@ -614,7 +614,7 @@ def model_jobs(tier: str, extras_path: Path, seed: int):
     else:
         mutants = list(SPEC_MUTANTS)
     jobs = [
-        dict(spec="MC_BlockLine", cfg="MC_BlockLine.cfg", workers=6, timeout=900, coverage=True,
+        dict(spec="MC_BlockLine", cfg="MC_BlockLine.cfg", workers=8, timeout=900, coverage=True,
              deadlock=False),
         dict(spec="MC_BlockLine", cfg=dump_cfg, workers=4 if tier == "quick" else 8, timeout=1500,
              deadlock=False, env={"C02_EXTRA": str(extras_path)}, jvm=["-Xmx6g"]),
